@@ -31,7 +31,7 @@ theorem accepted_clean (ops : Ops DT Val) (c : ClassDesc DT Val) (cfg : Cfg Val)
     have hnone : lookup d.name (applyModProps c.modProps cfg).values = none := by
       apply modProps_no_value cfg d.name c.modProps ⟨[], [], false⟩ rfl
       intro d' hd' hn
-      have : d' = d := eq_of_name_nodup (fun x : ModPropDesc Val => x.name) c.modProps wf.propNames d' hd' d hd hn
+      have : d' = d := name_determines (fun x : ModPropDesc Val => x.name) c.modProps wf.propNames d' hd' d hd hn
       subst this
       exact ⟨by rw [hcfg]; rfl, hcv⟩
     have hmand := acc.mandatory
